@@ -244,6 +244,23 @@ func genC03(r *vc.Run) {
 		} else if res.Applied > 0 && len(res.Culprits) == 0 {
 			r.Violate("keygen-negated-share-accepted|"+fr.proto, "a dealt share was negated in transit and nobody objected", f.String())
 		}
+		// a dealer that runs the honest code with threshold t+1 (or t-1): a polynomial of another degree, commitments, opening and
+		// shares all consistent with each other. The result would not be a (t,n) sharing: somebody must object, nothing inconsistent may come out
+		for _, kind := range []string{"config-threshold+1", "config-threshold-1"} {
+			if kind == "config-threshold-1" && fr.cost > 2 && !r.Thorough() {
+				continue
+			}
+			f2 := fault{fr.proto, "N1", "-", "config", 0, kind}
+			res2 := runFault(fr, f2, r.Seed+29)
+			r.Dist["wrong-degree-dealing/"+fr.proto]++
+			r.CountCase(f2.String(), res2.Applied > 0, fmt.Sprintf("%s => finished=%v culprits=%v", f2.String(), res2.Finished, res2.Culprits))
+			if res2.BadOutput != "" {
+				r.Violate("keygen-wrong-degree-accepted|"+fr.proto, "key generation completed with inconsistent key data although one dealer used a polynomial of another degree: "+res2.BadOutput, f2.String())
+			} else if kind == "config-threshold+1" && len(res2.Culprits) == 0 {
+				// (with t-1 the deviator may be unable to deal at all - a threshold below 1 is refused locally - and then nothing is sent)
+				r.Violate("keygen-wrong-degree-accepted|"+fr.proto, "one dealer used a polynomial of another degree (commitments and shares consistent with it) and nobody objected", f2.String())
+			}
+		}
 	}
 }
 
